@@ -36,7 +36,7 @@ def defaults_of(ctx, v):
     return d[v]
 
 
-def run_write_config(ctx, v, user, current, set_ok=True, proto_v=None, reject=None):
+def run_write_config(ctx, v, user, current, set_ok=True, proto_v=None, reject=None, after_refused_run=False):
     """One concrete abstract run of EZSP.write_config; current(name, value) -> (read_ok, current value)."""
     repo = ctx.repo
     f = repo.func(f"{EZSP}:EZSP.write_config")
@@ -89,9 +89,10 @@ def run_write_config(ctx, v, user, current, set_ok=True, proto_v=None, reject=No
     es = {"SUCCESS": st("getConfigurationValue", True), "ERR_FATAL": st("getConfigurationValue", False)}
     models = [("self._protocol.SCHEMAS[conf.CONF_EZSP_CONFIG]", schema_model),
               ("self.getConfigurationValue", wrap_get),
-              ("self.setConfigurationValue", lambda px, t, a, k, fr: (es["SUCCESS"] if set_ok else (reject or es["ERR_FATAL"]),)),
+              ("self.setConfigurationValue", lambda px, t, a, k, fr: (es["SUCCESS"] if set_ok and not phase.get("refuse") else (reject or es["ERR_FATAL"]),)),
               ("self.getValue", lambda px, t, a, k, fr: (es["SUCCESS"], b"\x00")),
-              ("self.setValue", lambda px, t, a, k, fr: (es["SUCCESS"] if set_ok else (reject or es["ERR_FATAL"]),))]
+              ("self.setValue", lambda px, t, a, k, fr: (es["SUCCESS"] if set_ok and not phase.get("refuse") else (reject or es["ERR_FATAL"]),))]
+    phase = {}
     px = PX(repo, models=models, inline=same_class(), max_paths=200, max_depth=5)
     pc = repo.cls(f"bellows.ezsp.v{pv}", f"EZSPv{pv}")
 
@@ -101,10 +102,29 @@ def run_write_config(ctx, v, user, current, set_ok=True, proto_v=None, reject=No
         given["config"] = dict(user)
         return self_obj(ez, {"_ezsp_version": v, "_protocol": Obj(pc, {}, tag="proto")}), {"config": given["config"]}
 
-    paths = px.explore(f, setup)
+    if after_refused_run:
+        # history on one EZSP object: a first configuration write in which the NCP refuses every set, then the write under test
+        px.inline.root = f
+
+        def entry():
+            me, kw = setup()
+            px.top_frame = None
+            phase["refuse"] = True
+            px.call_function(f, me, [], {"config": dict(user)}, None)
+            phase["refuse"] = False
+            px.emit("mark", "second write")
+            return px.call_function(f, me, [], kw, None)
+
+        paths = px._run(entry)
+    else:
+        paths = px.explore(f, setup)
     if len(paths) != 1:
         raise AnalysisError(f"write_config: {len(paths)} paths on a concrete scenario (v{v}, overrides {user})")
     p = paths[0]
+    if after_refused_run:
+        cut = next((i for i, e in enumerate(p.events) if e.kind == "mark" and e.what == "second write"), None)
+        if cut is not None:
+            p.events = p.events[cut:]
     # the caller keeps using the dict it passed (the application writes the configuration again after every reset)
     ctx.require(given["config"] == dict(user) and list(given["config"]) == list(user), "argument-mutated",
                 f"write_config modifies the configuration dict it is given: {dict(user)!r} -> {given['config']!r}; the next write (after a reset) no longer "
@@ -117,6 +137,12 @@ def run_write_config(ctx, v, user, current, set_ok=True, proto_v=None, reject=No
             if not isinstance(cid, Member):
                 raise AnalysisError(f"setConfigurationValue with unresolved id {cid!r}")
             sets.append((cid.name, val, state.get(cid.name)))
+    # every set-type command in the order issued (configuration values and plain values alike)
+    p.all_sets = []
+    for e in p.events:
+        if e.kind == "await" and e.what in ("self.setConfigurationValue", "self.setValue"):
+            ident = e.kwargs.get("configId", e.kwargs.get("valueId", e.args[0] if e.args else None))
+            p.all_sets.append(getattr(ident, "name", repr(ident)))
     return f, p, sets
 
 
@@ -244,6 +270,13 @@ def r16_2(ctx):
                             bad.append((f"override:{n}", f"user value {n}={uval} is set as {mine} (NCP reports {mode})"))
                     if BUFFER in names and names[-1] != BUFFER:
                         bad.append(("buffer-not-last", f"{BUFFER} is followed by {names[names.index(BUFFER) + 1:]}"))
+                    # plain values (setValue) are settings too: each at most once, none after the buffer count
+                    alls = p.all_sets
+                    vdup = sorted({n for n in alls if alls.count(n) > 1} - set(dup))
+                    if vdup:
+                        bad.append(("twice", f"{vdup} set more than once"))
+                    if BUFFER in alls and alls[-1] != BUFFER and not (BUFFER in names and names[-1] != BUFFER):
+                        bad.append(("buffer-not-last", f"{BUFFER} is followed by {alls[alls.index(BUFFER) + 1:]}"))
                     if set_ok:
                         base = (mode, names) if base is None or base[0] != mode else base
                     elif base and base[0] == mode and names != base[1]:
@@ -254,6 +287,16 @@ def r16_2(ctx):
                                           trace=[f"set {n}={val!r} (NCP had {rd!r})" for n, val, rd in sets], construct=key)
                     else:
                         ctx.ok(1, key)
+    # history: an earlier write in which the NCP refused every set must not change what a later write on the same object sets
+    for v in (VERSIONS[0], 8, VERSIONS[-1]):
+        for sname, user in SCENARIOS:
+            f, p0, sets0 = run_write_config(ctx, v, user, cur_factory("below"), True)
+            f, p1, sets1 = run_write_config(ctx, v, user, cur_factory("below"), True, after_refused_run=True)
+            n_runs += 1
+            ctx.require(p1.terminal == "return" and [(n, val) for n, val, _ in sets1] == [(n, val) for n, val, _ in sets0] and p1.all_sets == p0.all_sets,
+                        f"write_config:after-refused-run:{sname}", f"v{v} {sname}: after a write in which the NCP refused every setting, the next write on the same object sets "
+                        f"{[(n, val) for n, val, _ in sets1][-4:]} ... ({len(p1.all_sets)} sets); a fresh object sets {[(n, val) for n, val, _ in sets0][-4:]} ... ({len(p0.all_sets)} sets)",
+                        func=f)
     # a read that is not answered in time tells nothing about the NCP's value: the write either aborts (the time-out propagates)
     # or leaves grow-only settings alone - it never writes a capacity default over a value it could not read
     for v in VERSIONS:
